@@ -4,6 +4,8 @@ CONSTANTS
   Menu <- MenuWitness
   VarMenu <- NoItems
   VarVersions <- AllVersions
+  HistMenu <- NoItems
+  HistVersions <- NoVersions
   MultiMenu <- TripleQuick
   TripleMenu <- TripleQuick
   MaxItems = 1
